@@ -18,11 +18,11 @@
    Proof method: every global step, seen from one uid, is invisible or a move
    of a finite local transition system (Exec.ProjProofs: induction over the
    schedule, any number of tasks, under the invariant Exec.Proj.wf); the
-   reachable set of that system (67k states) is computed and checked closed
+   reachable set of that system (113k states) is computed and checked closed
    and safe by the kernel (Exec.LocalProofs, vm_compute over a genuinely
    finite domain: Local.lstate with counters saturating at 2). *)
 From Coq Require Import ZArith List Bool.
-From RP Require Import Exec.Model Exec.Oracle Exec.Local Exec.LocalProofs Exec.Proj Exec.Proofs Exec.ExamProofs.
+From RP Require Import Exec.Model Exec.Oracle Exec.Local Exec.LocalProofs Exec.Proj Exec.Proofs Exec.ExamProofs Exec.PollProofs.
 Import ListNotations.
 Open Scope Z_scope.
 
@@ -75,6 +75,14 @@ Theorem C07_named_examined_clause_holds_in_model :
     NoDup (delivered sc) -> run (init sc) sched = (s, tr) -> ok_named_examined sc tr (quiescent s) = true.
 Proof. exact model_named_examined. Qed.
 Print Assumptions C07_named_examined_clause_holds_in_model.
+
+(* a task is handed on as CANCELED only by a cancel_task whose poll saw the
+   process running (clause canceled_only_if_running_when_polled; see Props/C08.v) *)
+Theorem C07_cancel_polled_clause_holds_in_model :
+  forall (sc : scenario) (sched : list choice) (s : state) (tr : list stepobs),
+    run (init sc) sched = (s, tr) -> ok_cancel_polled (delivered sc) tr = true.
+Proof. exact model_cancel_polled. Qed.
+Print Assumptions C07_cancel_polled_clause_holds_in_model.
 
 (* the ownership argument: every run stays, for every delivered uid, inside the
    kernel-checked set of local states on which `Local.safe` holds (whoever
